@@ -22,6 +22,9 @@ pub fn exec(ctx: &mut Ctx, case: &Case) {
         "enum" => {
             fam::enum_strings(ALPHA, case.n[0] as usize, case.n[1], |s| {
                 ctx.evals += 1;
+                if ctx.want_sample() {
+                    ctx.note_sample(Case::new("auth").arg(s));
+                }
                 both_families!(ctx, Prod::Authority, s, c03);
             });
         }
